@@ -8,7 +8,12 @@ same-value write), every table write path (live column handle, held handle, cell
 promoting cell, row, column, region, attribute / indexed attribute replacement with a list and with a
 vector, rename), and a write through the donor of an attribute assignment.  A second family writes
 every position of v and every cell of t with a pool of values (equal, unequal, equal-hash, the
-61-bit residue pair) with and without a cached fingerprint.
+61-bit residue pair) with and without a cached fingerprint.  Family P: promotion by write of every
+ladder step (bool -> int -> float -> complex, date -> datetime, nullable date) through every write
+path of the free vector and of the table column, with / without cached fingerprints before and with a
+column- or table-level fingerprint() call after the write.  Family I: for EVERY write path, a column-
+level fingerprint() call between two table-level ones with the write in between (t.fingerprint();
+write; t.a.fingerprint(); t.fingerprint()), in all cache pre-states.
 
 The monitor NEVER calls fingerprint() on the live objects during the history (that would fill the
 caches and hide the uncached / cached distinction); every prefix is its own case.  After the last
@@ -96,6 +101,70 @@ BY_SRC = {o[1]: o for o in ALPHABET}
 # family B: every position x value pool, with / without a cached fingerprint
 POOL = ['1', '2', '100', '-1', '-2', 'True', '1.0', '1.5', 'None', str(1 - P61), str(2 + P61), '0']
 
+# family P: promotion by write, every ladder step.  kind -> (column literal, promoting values)
+LADDERS = {
+    'bool': ('[True, False, True]', ['2', '1.5', '1j']),
+    'int': ('[1, -1, 3]', ['1.5', '1j']),
+    'float': ('[1.0, 2.5, 3.0]', ['1j']),
+    'date': ('[date(2020,1,1), date(2020,1,2), date(2021,5,5)]', ['datetime(2022,3,4,5,6)']),
+    'date-null': ('[date(2020,1,1), None, date(2021,5,5)]', ['datetime(2022,3,4,5,6)']),
+}
+LADDER_SETUPS = {'lad-' + k: f"v = Vector({vals}, name='v'); t = Table({{'a': {vals}, 'b': [4, 5, 6]}}); c = t.a"
+                 for k, (vals, _) in LADDERS.items()}
+ALL_SETUPS = dict(SETUPS)
+ALL_SETUPS.update(LADDER_SETUPS)
+FP_V, FP_T, FP_C = 'fp_v = v.fingerprint()', 'fp_t = t.fingerprint()', 'fp_c = c.fingerprint()'
+# column-level fingerprint() calls that are not recorded (fresh lookup of the column through the table)
+COL_FP = [
+    ('Column.fingerprint-lookup', 't.a.fingerprint()', 'read'),
+    ('Column.fingerprint-last', 't.cols()[-1].fingerprint()', 'read'),
+    ('Column.fingerprint-all', '[col.fingerprint() for col in t.cols()]', 'read'),
+]
+BY_SRC.update({o[1]: o for o in COL_FP})
+
+
+def _promotion_cases():
+    for k, (vals, xs) in LADDERS.items():
+        s = 'lad-' + k
+        for x in xs:
+            vw = [(f'v[{i}] = {x}', 'Vector.setitem-promote') for i in (0, 1, -1)]
+            vw += [(f'v[0:1] = [{x}]', 'Vector.setitem-slice'), (f'v[[0, -1]] = [{x}, {x}]', 'Vector.setitem-index-list'),
+                   (f'v[[True, False, False]] = {x}', 'Vector.setitem-mask-list')]
+            for src, op in vw:
+                for pre in ([], [FP_V]):
+                    yield {'setup': s, 'hist': pre + [src], 'fam': 'P', 'opn': {src: op}}
+            tw = []
+            for i in (0, 1, -1):
+                tw += [(f'c[{i}] = {x}', 'Table.held-column-setitem'), (f't.a[{i}] = {x}', 'Table.column-setitem'),
+                       (f't[{i}, 0] = {x}', 'Table.setitem-cell'), (f"t[{i}, 'a'] = {x}", 'Table.setitem-cell'),
+                       (f't[{i}, :] = [{x}, 4]', 'Table.setitem-row')]
+            tw += [(f"t[:, 'a'] = [{x}, {x}, {x}]", 'Table.setitem-column'),
+                   (f"t[0:1, 0:1] = Table({{'p': [{x}]}})", 'Table.setitem-region'),
+                   (f'c[0:1] = [{x}]', 'Table.held-column-setitem')]
+            for src, op in tw:
+                for pre in ([], [FP_V, FP_T, FP_C], [FP_T], [FP_C]):
+                    for post in ([], [FP_C], ['t.a.fingerprint()'], [FP_T], ['t.a.fingerprint()', FP_T]):
+                        yield {'setup': s, 'hist': pre + [src] + post, 'fam': 'P', 'opn': {src: op}}
+
+
+def _interleaving_cases(tier):
+    """Every write path between two table-level fingerprint() calls, with a column-level call after the write
+    (the final table-level call is the monitor's)."""
+    writes = [o[1] for o in V_WRITES + T_WRITES]
+    mids = [[FP_C], ['t.a.fingerprint()'], ['t.cols()[-1].fingerprint()'], ['[col.fingerprint() for col in t.cols()]'], [FP_T]]
+    for s in SETUPS:
+        for pre in ([FP_T], [FP_T, FP_C], [FP_C], [FP_V, FP_T, FP_C]):
+            for w in writes:
+                for mid in mids:
+                    yield {'setup': s, 'hist': pre + [w] + mid, 'fam': 'I'}
+    # two writes, each followed by a column-level call
+    core_w = [o[1] for o in CORE if o[2] == 'write']
+    for s in (['t32'] if tier == 'quick' else ['t32', 't33-rshift', 't11']):
+        for w1 in core_w:
+            for w2 in core_w:
+                for mid in (FP_C, 't.a.fingerprint()'):
+                    yield {'setup': s, 'hist': [FP_T, w1, mid, w2, mid], 'fam': 'I'}
+
 
 def _history_cases(tier, seed):
     n_full, n_core = (2, 3) if tier == 'quick' else (3, 4)
@@ -120,6 +189,8 @@ def _history_cases(tier, seed):
                     for j in range(nc):
                         yield {'setup': s, 'hist': pre[1:] + [f't[{i}, {j}] = {x}'], 'fam': 'B'}
                         yield {'setup': s, 'hist': pre[1:] + [f't.cols()[{j}][{i}] = {x}'], 'fam': 'B'}
+    yield from _promotion_cases()
+    yield from _interleaving_cases(tier)
 
 
 # --------------------------------------------------------------------------------------------
@@ -151,10 +222,12 @@ KEY_OP = {
 }
 
 
-def _opname(src):
+def _opname(src, opn=None):
     o = BY_SRC.get(src)
     if o:
         return o[0], o[2]
+    if opn and src in opn:
+        return opn[src], 'write'
     if src.startswith('v['):
         return 'Vector.setitem-int', 'write'
     if src.startswith('c['):
@@ -220,7 +293,7 @@ def _history_evaluate(case):
     fails = []
     env = {}
     try:
-        exec(_compiled(SETUPS[case['setup']]), _G, env)
+        exec(_compiled(ALL_SETUPS[case['setup']]), _G, env)
     except Exception as e:
         return [Fail('C16:setup:raised', f'{type(e).__name__}: {e}')]
     records = []            # (object name, fingerprint, contents at that time, statement index)
@@ -231,7 +304,7 @@ def _history_evaluate(case):
     last_op = 'no-statement'
     pre_truth = {n: None for n in names}
     for k, src in enumerate(case['hist']):
-        op, kind = _opname(src)
+        op, kind = _opname(src, case.get('opn'))
         if k == len(case['hist']) - 1:
             pre_truth = {n: _truthful(env[n]) for n in names}     # reads storage and dtype only, no fingerprint cache
         try:
@@ -250,7 +323,7 @@ def _history_evaluate(case):
                 if not _same_contents(cur[n], c2):
                     last_change[n] = op
                 cur[n] = c2
-    hist = SETUPS[case['setup']] + '; ' + '; '.join(done)
+    hist = ALL_SETUPS[case['setup']] + '; ' + '; '.join(done)
     for name in names:
         x = env[name]
         kindname = 'table' if isinstance(x, Table) else ('column' if name == 'c' else 'vector')
@@ -300,9 +373,9 @@ def _history_evaluate(case):
 def nontrivial(case):
     if 'hist' not in case:
         return ('order', repr(case))
-    kinds = [_opname(s)[1] for s in case['hist']]
+    kinds = [_opname(s, case.get('opn'))[1] for s in case['hist']]
     if 'write' in kinds:
-        return (case['setup'],) + tuple(_opname(s)[0] for s in case['hist'])
+        return (case['setup'],) + tuple(_opname(s, case.get('opn'))[0] for s in case['hist'])
     return None
 
 
